@@ -1,18 +1,12 @@
 #!/bin/bash
-# Offline setup: warm the Go build cache for every check binary (no network needed).
+# Offline setup: warm the Go build cache by building every check binary (no network needed).
 set -u
 cd "$(dirname "$0")/.."
-export GOFLAGS=-mod=mod GOPROXY=off
-mkdir -p out/bin out/ov evidence
+mkdir -p out evidence
 fail=0
-build_one() {
-  name="$1"
-  if [ -f "checks/$name/SCHED" ]; then ./tools/instrument.sh "$name" || return 1; extra="out/inst/$name/overlay.json"; else extra=""; fi
-  mnt="$(python3 tools/mkoverlay.py "$name" "out/ov/$name.json" $extra)" || return 1
-  ( cd "${VERIF_REPO:-/repo}" && go build -tags verif -overlay "/verif/out/ov/$name.json" -o "/verif/out/bin/$name" "./$mnt" ) || return 1
-}
 for d in checks/*/; do
   name="$(basename "$d")"
-  build_one "$name" || { echo "setup: build of $name failed" >&2; fail=1; }
+  [ -f "$d/check.json" ] || continue
+  ./vcheck "$name" --build-only || { echo "setup: build of $name failed" >&2; fail=1; }
 done
 exit $fail
